@@ -268,7 +268,39 @@ fn hook_fn(info: &panic::PanicHookInfo<'_>) {
     if !QUIET.with(|q| q.get()) || std::env::var("MC_LOUD").is_ok() {
         eprintln!("panic: {}", text);
     }
+    // breadcrumb for the supervising process: should this panic end in a process abort (a guard
+    // that aborts on unwinding, a panic while panicking), the parent learns where and in what
+    if let Some(path) = crumb_path() {
+        let desc = crate::watchdog::current().0;
+        let seq = SEQ_CRUMB.with(|c| c.try_borrow().map(|s| s.clone()).unwrap_or_default());
+        let body = serde_json::json!({"panic": text, "doing": desc, "seq": seq});
+        let _ = std::fs::write(path, body.to_string());
+    }
     LAST_PANIC.with(|p| *p.borrow_mut() = Some(text));
+}
+
+thread_local! {
+    static SEQ_CRUMB: RefCell<String> = const { RefCell::new(String::new()) };
+}
+
+fn crumb_path() -> Option<&'static str> {
+    static P: std::sync::OnceLock<Option<String>> = std::sync::OnceLock::new();
+    P.get_or_init(|| std::env::var("MC_CRUMB").ok()).as_deref()
+}
+
+/// Whether breadcrumbs are wanted at all (the process runs under the supervising parent).
+pub fn crumbs_on() -> bool {
+    crumb_path().is_some()
+}
+
+/// The sequential engine's breadcrumb: "<property>|<config>|<cmd>:<choice>.<choice>,<cmd>:..." of the
+/// history being executed by this thread.
+pub fn set_seq_crumb(f: impl FnOnce(&mut String)) {
+    SEQ_CRUMB.with(|c| {
+        let mut s = c.borrow_mut();
+        s.clear();
+        f(&mut s);
+    });
 }
 
 pub fn install_panic_hook() {
